@@ -439,5 +439,7 @@ def jobs(tier: str, seed: int) -> list[dict]:
                     continue
                 for k0 in range(3):
                     pre = {'d0_bring': bool(k0 % 2)} if C.is_stud(code) else {'d0_k': k0}
+                    if k0 == 0:
+                        continue    # heads-up: a first-decision fold ends the hand (covered by the d1..d3 jobs)
                     add(f'{code}/n2/d4/T/p{k}/k{k0}', 5, code=code, n=2, depth=4, part=part, _preset=pre)
     return out
